@@ -157,8 +157,10 @@ impl DcpsDomainParticipant {
                                     crate::xtypes::dynamic_type::TypeKind::INT32 => {
                                         let member_value = data.get_int32_value(member_id).unwrap();
                                         // A parameter that is not a number compares with nothing: the sample does not pass
-                                        let Ok(parameter) =
-                                            content_filtered_topic.expression_parameters[0].parse()
+                                        let Some(Ok(parameter)) = content_filtered_topic
+                                            .expression_parameters
+                                            .first()
+                                            .map(|p| p.parse())
                                         else {
                                             continue 'changes;
                                         };
@@ -181,10 +183,13 @@ impl DcpsDomainParticipant {
                                     | crate::xtypes::dynamic_type::TypeKind::STRING16 => {
                                         let member_value =
                                             data.get_string_value(member_id).unwrap();
-                                        if !comparison_function.compare_string(
-                                            member_value,
-                                            &content_filtered_topic.expression_parameters[0],
-                                        ) {
+                                        // (an expression without parameters compares with nothing)
+                                        let Some(parameter) =
+                                            content_filtered_topic.expression_parameters.first()
+                                        else {
+                                            continue 'changes;
+                                        };
+                                        if !comparison_function.compare_string(member_value, parameter) {
                                             continue 'changes;
                                         }
                                     }
